@@ -18,7 +18,7 @@ var (
 	CookieNames  = []string{"c", "d"}
 	Hosts        = []string{"example.com", "a.example.com", "b.example.com", "a.b.example.com", "other.org"}
 	HostPatterns = []string{"example.com", "a.example.com", "*.example.com", "*.*.example.com", "*.org", "a.*.com", "b.example.com"}
-	Paths        = []string{"/", "/x", "/y"}
+	Paths        = []string{"/", "/x", "/y", "/", "/x", "/y", "/~user", "/wiki/Foo_(bar)", "/v1/items/*", "/a b"}
 	Schemes      = []string{"http", "https"}
 )
 
@@ -233,10 +233,36 @@ func CloneHTTPHeader(h map[string][]string) http.Header {
 	return out
 }
 
+// WirePaths: spellings of a path on the request line that differ from Go's
+// canonical escaping of the decoded path (characters sent verbatim that Go
+// would escape, unnecessary and lower-case escapes), with the decoded path.
+var WirePaths = [][2]string{
+	{"/wiki/Foo_(bar)", "/wiki/Foo_(bar)"},
+	{"/v1/items/*", "/v1/items/*"},
+	{"/%7Euser", "/~user"},
+	{"/%7euser", "/~user"},
+	{"/it's!", "/it's!"},
+	{"/%78", "/x"},
+	{"/a%20b", "/a b"},
+	{"/%79", "/y"},
+}
+
 func RealRequest(m *Req) *http.Request {
+	u := &url.URL{Scheme: m.Scheme, Host: m.Host, Path: m.Path, RawQuery: m.Query}
+	if m.Wire != "" {
+		// as a server reads the request line
+		p, err := url.ParseRequestURI(m.Wire)
+		if err != nil {
+			panic(err)
+		}
+		u.Path, u.RawPath = p.Path, p.RawPath
+		if u.Path != m.Path {
+			panic("treeref: wire path " + m.Wire + " does not decode to " + m.Path)
+		}
+	}
 	return &http.Request{
 		Method: m.Method,
-		URL:    &url.URL{Scheme: m.Scheme, Host: m.Host, Path: m.Path, RawQuery: m.Query},
+		URL:    u,
 		Host:   m.HostH, Header: CloneHTTPHeader(m.Header), ContentLength: m.CL,
 		Proto: "HTTP/1.1", ProtoMajor: 1, ProtoMinor: 1, Body: http.NoBody,
 	}
